@@ -286,6 +286,11 @@ def setup_work():
     put(comp("greeter"), "deps", "example", "greeter.wasm")
     put(comp("foo-bar"), "deps", "foo", "bar.wasm")
     put(comp("bar-baz"), "deps", "bar", "baz.wasm")
+    # package names with more than two ':' segments: one directory per segment (README: deps/<namespace>/<package>.wasm)
+    put(comp("hello"), "deps", "acme", "util", "hello.wasm")
+    put(comp("greeter"), "deps", "acme", "util", "greeter.wasm")
+    put(comp("greeter"), "deps", "acme", "util", "more", "greeter.wasm")
+    put(comp("foo-bar"), "deps", "acme", "util", "more", "bar.wasm")
     put(os.path.join(CORPUS, "wit", "types", "api.wit"), "deps", "example", "types", "api.wit")
     put(comp("merge-instance"), "deps-merge", "foo", "bar.wasm")
     put(comp("merge-func"), "deps-merge", "bar", "baz.wasm")
@@ -313,6 +318,10 @@ def compose_scenarios(tier, seed):
     add("ok-embed", wacf("ok-embed"))
     add("ok-implicit", wacf("ok-implicit"))
     add("ok-witdir", wacf("ok-witdir"))
+    add("ok-nested-ns", wacf("ok-nested-ns"))
+    add("ok-nested-ns-mixed", wacf("ok-nested-ns-mixed"))
+    add("ok-nested-ns-four", wacf("ok-nested-ns-four"))
+    add("fail-nested-ns-missing", wacf("fail-nested-ns-missing"))
     add("ok-dep-flags", wacf("ok-embed"), "deps-empty",
         ["example:hello=" + comp("hello"), " example:greeter\t= " + comp("greeter") + "  "])
     add("ok-dep-last-wins", wacf("ok-embed"), "deps-empty",
@@ -351,14 +360,15 @@ def generated_compositions(n, seed):
         use_hello = r.random() < 0.8
         use_greeter = r.random() < 0.8
         use_foo = r.random() < 0.5
+        nested = r.random() < 0.35
         if use_hello:
-            lines.append("let h = new example:hello {};")
+            lines.append("let h = new %s {};" % ("acme:util:hello" if nested else "example:hello"))
         if use_greeter:
             if use_hello and r.random() < 0.7:
                 arg = "h" if fault == "kind" else "h.hello"
-                lines.append("let g = new example:greeter { hello: %s };" % arg)
+                lines.append("let g = new %s { hello: %s };" % (r.choice(["acme:util:greeter", "acme:util:more:greeter"]) if nested else "example:greeter", arg))
             else:
-                lines.append("let g = new example:greeter { ... };")
+                lines.append("let g = new %s { ... };" % ("acme:util:greeter" if nested else "example:greeter"))
             lines.append("export g.greet;")
         if use_foo:
             lines.append("let x = new foo:bar { ... };")
@@ -383,7 +393,7 @@ def generated_compositions(n, seed):
         if fault == "merge":
             deps_dir = "deps-merge"
             lines = ["package gen:comp%d;" % i, "", "let a = new foo:bar { ... };", "let b = new bar:baz { ... };"]
-        elif r.random() < 0.4:
+        elif not nested and r.random() < 0.4:
             deps_dir = "deps-empty"
             pad = lambda: r.choice(["", " ", "\t", "  "])
             for pkg, c in (("example:hello", "hello"), ("example:greeter", "greeter"), ("foo:bar", "foo-bar"), ("bar:baz", "bar-baz")):
@@ -404,6 +414,17 @@ def py_parse_dep(s):
 
 
 SWITCHES = list(itertools.product([False, True], repeat=3))     # (no_validate, wat, import_dependencies)
+
+# What the -o path holds BEFORE the run: nothing, something longer than any output, something shorter.
+LONGER = (b"previous content of the output file; none of these bytes may survive the run\n" * 128) + bytes(range(256)) * 8
+SHORTER = b"old"
+PRE_STATES = [("fresh", None), ("longer", LONGER), ("shorter", SHORTER)]
+
+
+def precreate(runs):
+    for rn in runs:
+        if rn.get("out") and rn.get("pre") is not None:
+            open(rn["out"], "wb").write(rn["pre"])
 
 
 def compose_argv(sc, sw, out_path, r):
@@ -597,7 +618,9 @@ def _run(res, tier, seed, replay):
                     continue
                 outp = os.path.join(WORK, "out", hashlib.md5(cid.encode()).hexdigest()[:10] + (".wat" if sw[1] else ".wasm")) \
                     if sink == "file" else None
-                runs.append(dict(id=cid, kind="compose", sc=sc, sw=sw, sink=sink, out=outp, tty=False,
+                # with and without -t every composition sees a fresh, a longer and a shorter pre-existing -o file
+                pre_name, pre = PRE_STATES[(2 * int(sw[0]) + int(sw[2]) + 1) % 3] if sink == "file" else ("-", None)
+                runs.append(dict(id=cid, kind="compose", sc=sc, sw=sw, sink=sink, out=outp, tty=False, pre=pre, pre_name=pre_name,
                                  argv=compose_argv(sc, sw, outp, r)))
     # terminal runs (stdout is a pty): guard, text to terminal, guard before encode, unwritable -o
     for name, sw in (("ok-embed", (False, False, False)), ("ok-embed", (False, True, False)), ("fail-encode", (False, False, False)),
@@ -648,6 +671,7 @@ def _run(res, tier, seed, replay):
     lap("library_side")
     # ---------------- execute everything
     all_runs = runs + plug_runs + parse_runs + target_runs + usage_runs
+    precreate(all_runs)
     with ThreadPoolExecutor(max_workers=16) as ex:
         obs = list(ex.map(lambda rn: run_cli(rn["argv"], tty=rn.get("tty", False)), all_runs))
     for rn, o in zip(all_runs, obs):
@@ -713,8 +737,11 @@ def _run(res, tier, seed, replay):
         disagreements=len(bag.disagree), spec_failures_on_impl=len(bag.spec_fail),
         distinct_nontrivial=len(bag.nontrivial),
         rule="every case is one execution of the built wac binary. compose: %d compositions (corpus/C19 + seeded generator) x "
-             "2^3 switches (--no-validate, -t, --import-dependencies) x {-o file, stdout pipe}, plus pty runs (terminal guard) "
-             "and an unwritable -o; plug: plug sets x {-t} x {-o, pipe}, 8 repetitions of one 4-plug command line (digests); "
+             "2^3 switches (--no-validate, -t, --import-dependencies) x {-o file, stdout pipe}, the -o path being absent / holding a "
+             "longer file / holding a shorter file before the run (each composition sees all three, with and without -t), plus pty "
+             "runs (terminal guard) and an unwritable -o; dependencies with 2, 3 and 4 ':' segments from --deps-dir, the reference "
+             "package map being read from the documented locations by the harness itself; plug: plug sets x {-t} x {-o fresh, "
+             "-o over longer, -o over shorter, pipe}, 8 repetitions of one 4-plug command line (digests); "
              "parse: every composition; targets: component x WIT x --world; clap: README lines and malformed command lines. "
              "Compared byte-exactly with in-process library results (harness bin c19) and with the vm_compute-evaluated model. "
              "non-trivial = distinct (command, inputs, flags, sink) whose library pipeline got past parsing the arguments and "
@@ -851,12 +878,15 @@ def judge_compose(runs, vals, bag, known):
         m = parse_model_outcome(vals[rn["model_ix"]])
         acc = vals[rn["accept_ix"]] == "1"
         argv = ["wac"] + rn["argv"]
-        base = dict(case_id=rn["id"], argv=argv, cwd=WORK, library_stages={k: v.get("st") for k, v in lib.items() if isinstance(v, dict) and "st" in v})
+        base = dict(case_id=rn["id"], argv=argv, cwd=WORK, output_path_before_the_run=rn.get("pre_name", "-"),
+                    repository_fs_resolver_agrees_with_documented_lookup=lib.get("fs_lib", {}).get("same_as_documented"), library_stages={k: v.get("st") for k, v in lib.items() if isinstance(v, dict) and "st" in v})
         if past_parsing(lib):
             bag.nontrivial.add(rn["id"])
         # ---- (a) correspondence: implementation == model
         exp_out = tokens_to_bytes(m["stdout"], table)
-        exp_file = tokens_to_bytes(m["file"][1], table) if m["file"] else None
+        # content of the -o path after the run: fs_after prev outcome (model/Cli.v) -- the written bytes, else what was there
+        pre = rn.get("pre")
+        exp_file = tokens_to_bytes(m["file"][1], table) if m["file"] else pre
         mism = []
         if not acc:
             mism.append("model of clap rejects an argv the driver built")
@@ -899,8 +929,9 @@ def judge_compose(runs, vals, bag, known):
         if not registry_env and (o["rc"] == 0) != (lib_ok and sink_ok):
             why.append("exit status %d but the library pipeline with the documented options (define_components=%s, validate=%s) %s"
                        % (o["rc"], key[0] == "1", key[1] == "1", "succeeds" if lib_ok else "fails"))
-        if o["rc"] != 0 and (o["out"] or o.get("file") is not None):
-            why.append("a failing run produced output (stdout %d bytes, file %s)" % (len(o["out"]), "written" if o.get("file") is not None else "absent"))
+        if o["rc"] != 0 and (o["out"] or o.get("file") != pre):
+            why.append("a failing run produced output (stdout %d bytes, -o path %s)" % (
+                len(o["out"]), "unchanged" if o.get("file") == pre else ("created" if pre is None else "modified/removed")))
         if o["rc"] != 0 and not o["err"]:
             why.append("a failing run printed no diagnostic")
         if o["rc"] == 0 and lib_ok:
@@ -908,8 +939,12 @@ def judge_compose(runs, vals, bag, known):
             got = o.get("file") if rn["out"] else o["out"]
             if rn["out"]:
                 if got != want:
-                    why.append("-o wrote %s, the library pipeline with the documented options gives %s" % (
-                        "nothing" if got is None else f"{len(got)} bytes sha {sha(got)[:12]}", f"{len(want)} bytes sha {sha(want)[:12]}"))
+                    tail = ""
+                    if got is not None and pre is not None and got[:len(want)] == want and got[len(want):] == pre[len(want):]:
+                        tail = " -- the file starts with the right bytes but keeps the tail of its previous content"
+                    why.append("after -o the file (previously %s) holds %s, the library pipeline with the documented options / stdout gives %s%s" % (
+                        "absent" if pre is None else f"{len(pre)} bytes",
+                        "nothing" if got is None else f"{len(got)} bytes sha {sha(got)[:12]}", f"{len(want)} bytes sha {sha(want)[:12]}", tail))
                 if o["out"]:
                     why.append("-o given but %d bytes were also written to stdout" % len(o["out"]))
             else:
@@ -1018,8 +1053,9 @@ def plug_matrix(only, r, want):
     runs = []
     for sc in P:
         for wat in (False, True):
-            for sink in ("file", "pipe"):
-                cid = "plug/%s/%d/%s" % (sc["name"], int(wat), sink)
+            for sink_label, pre in (("file", None), ("file-longer", LONGER), ("file-shorter", SHORTER), ("pipe", None)):
+                sink = "pipe" if sink_label == "pipe" else "file"
+                cid = "plug/%s/%d/%s" % (sc["name"], int(wat), sink_label)
                 if only is not None and cid not in only:
                     continue
                 outp = os.path.join(WORK, "out", hashlib.md5(cid.encode()).hexdigest()[:10] + (".wat" if wat else ".wasm")) if sink == "file" else None
@@ -1034,7 +1070,8 @@ def plug_matrix(only, r, want):
                 for e in extra:
                     seq.insert(r.randrange(len(seq) + 1), e)
                 argv = ["plug"] + [x for p in seq for x in p]
-                runs.append(dict(id=cid, kind="plug", sc=sc, wat=wat, sink=sink, out=outp, argv=argv, tty=False,
+                runs.append(dict(id=cid, kind="plug", sc=sc, wat=wat, sink=sink, out=outp, argv=argv, tty=False, pre=pre,
+                                 pre_name=sink_label,
                                  accept_ix=want("show_bool (accepts cli_flags %s)" % coq_list([coq_str(a) for a in argv]))))
         for wat in (False, True):
             cid = "plug-tty/%s/%d" % (sc["name"], int(wat))
@@ -1084,6 +1121,8 @@ def plug_after_obs(runs, P, want):
                     want_b = open(lr["print"]["file"], "rb").read() + (b"" if rn["out"] else b"\n") if rn["wat"] else open(lr["file"], "rb").read()
                     if got == want_b:
                         chosen = ix; break
+                    if chosen is None and got is not None and rn.get("pre") is not None and got[:len(want_b)] == want_b:
+                        chosen = ix      # right bytes followed by something else: judged below
                 elif o["rc"] != 0 and lr["st"] != "ok":
                     if norm_ws(lr.get("msg", "").split(": ", 1)[-1])[:40] in norm_ws(o["err"]):
                         chosen = ix; break
@@ -1139,7 +1178,7 @@ def judge_plug(runs, P, vals, bag, known):
         bag.count("plug")
         sc, o = rn["sc"], rn["obs"]
         argv = ["wac"] + rn["argv"]
-        base = dict(case_id=rn["id"], argv=argv, cwd=WORK)
+        base = dict(case_id=rn["id"], argv=argv, cwd=WORK, output_path_before_the_run=rn.get("pre_name", "-"))
         m = parse_model_outcome(vals[rn["model_ix"]])
         acc = vals[rn["accept_ix"]] == "1"
         table = {}
@@ -1151,7 +1190,8 @@ def judge_plug(runs, P, vals, bag, known):
             bag.nontrivial.add(rn["id"])
         mism = []
         exp_out = tokens_to_bytes(m["stdout"], table)
-        exp_file = tokens_to_bytes(m["file"][1], table) if m["file"] else None
+        pre = rn.get("pre")
+        exp_file = tokens_to_bytes(m["file"][1], table) if m["file"] else pre
         if not acc and m["exit"] != 2:
             mism.append("model of clap rejects the argv but the model of the command does not")
         if o["rc"] != m["exit"]:
@@ -1170,8 +1210,8 @@ def judge_plug(runs, P, vals, bag, known):
                                      stderr=o["err"].decode("utf-8", "replace")[:300]))
         # (b) documented: the library pipeline with the plugs registered in command-line (first occurrence) order
         why = []
-        if o["rc"] != 0 and (o["out"] or o.get("file") is not None):
-            why.append("a failing run produced output")
+        if o["rc"] != 0 and (o["out"] or o.get("file") != pre):
+            why.append("a failing run produced output or changed the -o path")
         if o["rc"] != 0 and not o["err"]:
             why.append("a failing run printed no diagnostic")
         if sc["perms"]:
@@ -1187,7 +1227,11 @@ def judge_plug(runs, P, vals, bag, known):
                     why.append("-o given but %d bytes were also written to stdout" % len(o["out"]))
                 if not rn["out"] and rn["wat"] and got is not None and got.endswith(b"\n") and "sink:text-stdout-trailing-newline" in known:
                     got = got[:-1]
-                if got != want_b:
+                if rn["out"] and got != want_b and got is not None and pre is not None and got[:len(want_b)] == want_b \
+                        and got[len(want_b):] == pre[len(want_b):]:
+                    why.append("after -o the file (previously %d bytes) holds %d bytes: the right %d bytes followed by the tail of its "
+                               "previous content -- not the bytes otherwise sent to stdout" % (len(pre), len(got), len(want_b)))
+                elif got != want_b:
                     if rn["chosen"] not in (None, 0) and len(sc["groups"]) >= 2 and "plug:hash-order" in known:
                         bag.known_hits.setdefault("plug:hash-order",
                                                   "`%s`: output is the library result for registration order %s, not for the command-line order %s"
